@@ -53,16 +53,17 @@ pub fn to_ref(o: &Obs) -> Vec<RE> {
         .collect()
 }
 
-fn total(l: &[RE], e: usize) -> usize {
-    l.iter().map(|x| x.size(e)).sum()
+/// sums are taken in u128: transient totals of a history may exceed usize
+fn total(l: &[RE], e: usize) -> u128 {
+    l.iter().map(|x| x.size(e) as u128).sum()
 }
 
 /// drops from the LRU end while the sum exceeds `room`
 fn evict(l: &mut Vec<RE>, room: usize, e: usize) -> Vec<RE> {
     let mut t = total(l, e);
     let mut n = 0;
-    while t > room && n < l.len() {
-        t -= l[n].size(e);
+    while t > room as u128 && n < l.len() {
+        t -= l[n].size(e) as u128;
         n += 1;
     }
     l.drain(..n).collect()
@@ -75,6 +76,11 @@ fn take(l: &mut Vec<RE>, id: u32) -> Option<RE> {
 pub struct Incoming {
     pub kserial: u64,
     pub vserial: u64,
+    /// Some(h): the key instance that ends up stored has this size estimate
+    /// (an implementation may keep the old key instance when an equal key is
+    /// inserted again; which one is kept is not part of any statement, but
+    /// the sizes follow the instance that is kept)
+    pub kheap_override: Option<usize>,
 }
 
 /// expected panic marker for documented panics
@@ -95,10 +101,10 @@ pub fn step(u: &Universe, pre: &Obs, op: Op, inc: &Incoming) -> RefStep {
         promoted: None,
         class: "",
     };
-    let cur = total(&l, e);
+    let cur: usize = usize::try_from(total(&l, e)).unwrap_or(usize::MAX);
     let mk_in = |k: u16, kheap: usize, vheap: usize| RE {
         id: k as u32,
-        kheap,
+        kheap: inc.kheap_override.unwrap_or(kheap),
         kserial: inc.kserial,
         vheap,
         vserial: inc.vserial,
@@ -111,13 +117,13 @@ pub fn step(u: &Universe, pre: &Obs, op: Op, inc: &Incoming) -> RefStep {
             r.class = "insert:too-large";
         } else {
             let old = take(l, k as u32);
-            let without_credit = cur + s > limit;
+            let without_credit = cur.checked_add(s).map(|t| t > limit).unwrap_or(true);
             r.evicted = evict(l, limit - s, e);
             r.class = match (&old, r.evicted.len(), without_credit) {
                 (Some(_), 0, true) => "insert:replace-credit-decisive",
                 (Some(_), 0, false) => "insert:replace",
                 (Some(_), _, _) => "insert:replace+evict",
-                (None, 0, _) if cur + s == limit => "insert:exact-fit",
+                (None, 0, _) if cur.checked_add(s) == Some(limit) => "insert:exact-fit",
                 (None, 0, _) => "insert:fresh",
                 (None, 1, _) => "insert:evict1",
                 (None, 2, _) => "insert:evict2",
@@ -216,7 +222,7 @@ pub fn step(u: &Universe, pre: &Obs, op: Op, inc: &Incoming) -> RefStep {
             r.evicted = evict(&mut l, nl, e);
             r.limit = nl;
             r.class = match r.evicted.len() {
-                0 if total(&l, e) == nl && !l.is_empty() => "set_max:exact-fit",
+                0 if total(&l, e) == nl as u128 && !l.is_empty() => "set_max:exact-fit",
                 0 => "set_max:evict0",
                 1 => "set_max:evict1",
                 2 => "set_max:evict2",
@@ -375,7 +381,7 @@ pub fn replay(u: &Universe, start: (Vec<RE>, usize), hist: &[Op]) -> Option<(Vec
             limit,
             cap: 0,
             len: l.len(),
-            cur: l.iter().map(|x| x.size(u.e)).sum(),
+            cur: usize::try_from(l.iter().map(|x| x.size(u.e) as u128).sum::<u128>()).unwrap_or(usize::MAX),
             is_empty: l.is_empty(),
             entries: l
                 .iter()
@@ -383,7 +389,7 @@ pub fn replay(u: &Universe, start: (Vec<RE>, usize), hist: &[Op]) -> Option<(Vec
                 .collect(),
             overrun: false,
         };
-        let r = step(u, &obs, op, &Incoming { kserial: 0, vserial: 0 });
+        let r = step(u, &obs, op, &Incoming { kserial: 0, vserial: 0, kheap_override: None });
         l = r.post;
         limit = r.limit;
     }
